@@ -633,3 +633,55 @@ class PushProbe:
         for mod, name, orig in self._undo:
             setattr(mod, name, orig)
         self._undo = []
+
+
+# ---------------------------------------------------------------- output views: model vs real, exact
+
+VIEWS_PRELUDE = """From Verif Require Import Base.PyInt C16.Asm C16.HexBytes C16.Views C16.GenOpcodes.
+Open Scope list_scope.
+Local Infix "+++" := append (at level 60, right associativity).
+Definition vcheck (v : Z) (code : list Z) (asm : list item) (nm nmc : Z -> string) (opc atext : string)
+           (ia : list nat) (ka : list Z) (ie : list nat) (ke : list Z) (ij : list nat) (kj : list Z) :=
+  (match opcodes_text (opcode_table v) code with Ok t => String.eqb t opc | Err _ => false end,
+   match asm_text nm nmc asm with Ok t => String.eqb t atext | Err _ => false end,
+   match keys_at (opcode_table v) (has_push0 v) asm ia [] with Ok l => same_set l ka | Err _ => false end,
+   match keys_at (opcode_table v) (has_push0 v) asm ie [] with Ok l => same_set l ke | Err _ => false end,
+   match keys_at (opcode_table v) (has_push0 v) asm ij [0] with Ok l => same_set l kj | Err _ => false end).
+"""
+
+
+def coq_text(s, chunk=900):
+    """Coq term of type string for arbitrary printable text (newlines allowed), chunked."""
+    assert all(c == "\n" or 32 <= ord(c) < 127 for c in s), "non-printable character in text"
+    parts = ['"' + s[i:i + chunk].replace('"', '""') + '"' for i in range(0, len(s), chunk)] or ['""']
+    return "(" + " +++ ".join(parts) + ")"
+
+
+def name_fun(ids):
+    arms = " ".join(f"| {i} => {coq_str(n)}" for n, i in ids.items())
+    return f'(fun z => match z with {arms} | _ => "?" end)'
+
+
+def views_expr(v, code, term, L, C, opcodes_text, asm_text, idx_ast, keys_ast, idx_err, keys_err, idx_jump, keys_jump):
+    nl = lambda xs: "[" + "; ".join(f"{x}%nat" for x in xs) + "]"  # noqa
+    zl_ = lambda xs: "[" + "; ".join(str(x) for x in xs) + "]"  # noqa
+    return (f"vcheck {v} {coq_bytes(code)} {term} {name_fun(L.ids)} {name_fun(C.ids)} {coq_text(opcodes_text)} "
+            f"{coq_text(asm_text)} {nl(idx_ast)} {zl_(keys_ast)} {nl(idx_err)} {zl_(keys_err)} {nl(idx_jump)} {zl_(keys_jump)}")
+
+
+def source_map_indices(asm, smap):
+    """which item indices file entries in pc_raw_ast_map / error_map / pc_jump_map (mirrors note_line_num's
+    *classification* of items, not its pc arithmetic), and the real key sets."""
+    I = _imports()
+    ia, ie, ij = [], [], []
+    for k, it in enumerate(asm):
+        if isinstance(it, I.TaggedInstruction):
+            node = it.ast_source
+            if node is not None and hasattr(node.get_original_node(), "node_id"):
+                ia.append(k)
+            if it.error_msg is not None:
+                ie.append(k)
+        if isinstance(it, str) and str(it) in ("JUMP", "JUMPI", "JUMPDEST"):
+            ij.append(k)
+    ka = [pc for pc, node in smap.get("pc_raw_ast_map", {}).items() if not (pc == 0 and type(node).__name__ == "Module")]
+    return ia, sorted(ka), ie, sorted(smap.get("error_map", {})), ij, sorted(smap.get("pc_jump_map", {}))
